@@ -201,6 +201,8 @@ type Case struct {
 	// History: instead of a lifecycle behaviour, a sequence of per-request operations on the
 	// state that outlives a request (rate counters, penalty boxes), checked against a map model
 	History []string `json:"history,omitempty"`
+	// Rewrite: requests whose restarted attempt may look up another URL (see runRewrite)
+	Rewrite []string `json:"rewrite,omitempty"`
 }
 
 // Prediction is what the model says a client observes for one request.
@@ -491,9 +493,124 @@ func runHistory(c Case) engine.Result {
 	return res
 }
 
+// runRewrite: requests whose second attempt looks up another URL than the first (vcl_recv rewrites req.url when
+// req.restarts == 1), compared with a map model of the cache: per attempt hit iff the URL is stored; a miss that reaches
+// vcl_fetch stores it; what the client sees (subroutines run, X-Cache, cached flag, restarts) is decided by the last attempt.
+// op = "<url> <rewrite|-> <restart-on-hit 0|1>" (restart is not available in vcl_miss)
+func runRewrite(c Case) engine.Result {
+	src := `backend origin { .host = "example.com"; .port = "80"; }
+sub vcl_recv {
+#FASTLY recv
+  if (req.restarts == 1 && req.http.X-Rewrite) {
+    set req.url = req.http.X-Rewrite;
+  }
+  return(lookup);
+}
+sub vcl_hash {
+#FASTLY hash
+  return(hash);
+}
+sub vcl_hit {
+#FASTLY hit
+  if (req.restarts == 0 && req.http.X-Restart-On-Hit == "1") {
+    restart;
+  }
+  return(deliver);
+}
+sub vcl_miss {
+#FASTLY miss
+  return(fetch);
+}
+sub vcl_fetch {
+#FASTLY fetch
+  set beresp.ttl = 3600s;
+  return(deliver);
+}
+sub vcl_deliver {
+#FASTLY deliver
+  return(deliver);
+}
+sub vcl_log {
+#FASTLY log
+}
+`
+	ip, _ := sim.NewServer(src)
+	stored := map[string]bool{}
+	res := engine.Result{NonTrivial: true, Steps: int64(len(c.Rewrite)), Outcome: "agrees"}
+	for i, op := range c.Rewrite {
+		f := strings.Fields(op)
+		url, rw, onHit := f[0], f[1], f[2] == "1"
+		hdr := [][2]string{{"X-Restart-On-Hit", f[2]}}
+		if rw != "-" {
+			hdr = append(hdr, [2]string{"X-Rewrite", "/" + rw})
+		}
+		// model
+		var want []string
+		restarts := 0
+		u := url
+		hit := stored[u]
+		want = append(want, "recv", "hash")
+		if hit {
+			want = append(want, "hit")
+		} else {
+			want = append(want, "miss")
+		}
+		if hit && onHit {
+			restarts = 1
+			if rw != "-" {
+				u = rw
+			}
+			hit = stored[u]
+			want = append(want, "recv", "hash")
+			if hit {
+				want = append(want, "hit")
+			} else {
+				want = append(want, "miss")
+			}
+		}
+		if !hit {
+			want = append(want, "fetch")
+			stored[u] = true
+		}
+		want = append(want, "deliver", "log")
+		o := sim.Observe(ip, "GET", "http://example.com/"+url, hdr)
+		var got []string
+		for _, fl := range o.Flows {
+			got = append(got, strings.ToLower(strings.SplitN(fl, "/", 2)[0]))
+		}
+		wantX := "MISS"
+		if hit {
+			wantX = "HIT"
+		}
+		bad := ""
+		switch {
+		case o.Panic != "":
+			bad = "panic: " + o.Panic
+		case strings.Join(got, ">") != strings.Join(want, ">"):
+			bad = fmt.Sprintf("subroutines %v, model %v", got, want)
+		case o.Restarts != restarts:
+			bad = fmt.Sprintf("restarts %d, model %d", o.Restarts, restarts)
+		case o.Cached != hit:
+			bad = fmt.Sprintf("cached flag %v, model %v", o.Cached, hit)
+		case o.Headers["x-cache"] != wantX:
+			bad = fmt.Sprintf("X-Cache %q, model %q", o.Headers["x-cache"], wantX)
+		}
+		if bad != "" {
+			res.Outcome = "diverges"
+			kind := strings.SplitN(bad, " ", 2)[0]
+			res.Findings = []engine.Finding{{Class: "rewrite-history|" + kind, What: fmt.Sprintf("history %v, request %d: simulator reports %s (error %q)", c.Rewrite, i+1, bad, o.Error), Detail: src}}
+			return res
+		}
+	}
+	return res
+}
+
 func run(c Case) engine.Result {
 	if len(c.History) > 0 {
 		return runHistory(c)
+	}
+	if len(c.Rewrite) > 0 {
+		return runRewrite(c)
 	}
 	src := compile(c)
 	ip, _ := sim.NewServer(src)
@@ -618,17 +735,43 @@ func gen06(tier string, emit func(Case)) {
 			}
 		}
 	}
+	// all histories of up to 3 (thorough: 4) requests over {URL a, b} x {no rewrite, rewrite to a, to b} x restart on hit
+	var rwOps []string
+	for _, u := range []string{"a", "b"} {
+		for _, rw := range []string{"-", "a", "b"} {
+			for _, h := range []string{"0", "1"} {
+				rwOps = append(rwOps, u+" "+rw+" "+h)
+			}
+		}
+	}
+	for _, a := range rwOps {
+		emit(Case{Rewrite: []string{a}})
+		for _, b := range rwOps {
+			emit(Case{Rewrite: []string{a, b}})
+			for _, c := range rwOps {
+				emit(Case{Rewrite: []string{a, b, c}})
+				if tier == "thorough" {
+					for _, d := range rwOps {
+						emit(Case{Rewrite: []string{a, b, c, d}})
+					}
+				}
+			}
+		}
+	}
 }
 
 func init() {
 	engine.Register(engine.Spec[Case]{
 		ID:    "C06",
 		Level: "model_checking",
-		Rule: "TLA+ model tla/Lifecycle.tla (documented Fastly lifecycle for up to 3 requests over 2 URLs, restarts <= 3, cache store/lookup) is checked by TLC on all reachable states (invariants: restart bound, vcl_log at most once and last, hit iff stored, first request never hits, failed requests do not log); TLC's dumped state graph is parsed and every behaviour with at most 3 (quick) / 5 (thorough) non-default choices over 3 requests, and at most 5 / 7 for single requests, plus one behaviour through every remaining edge of the graph (full edge coverage), is regenerated as a path, compiled to one VCL program (one arm per request id and restart epoch) plus a request history, run on a fresh real interpreter through ServeHTTP with a stub backend and compared step by step: executed lifecycle subroutines, restarts, reported error, X-Cache, cached flag; plus all 216 histories of 3 requests over rate-counter increments and penalty-box additions on two keys, compared with a map model. non-trivial = behaviour with a non-default choice or more than one request",
+		Rule: "TLA+ model tla/Lifecycle.tla (documented Fastly lifecycle for up to 3 requests over 2 URLs, restarts <= 3, cache store/lookup) is checked by TLC on all reachable states (invariants: restart bound, vcl_log at most once and last, hit iff stored, first request never hits, failed requests do not log); TLC's dumped state graph is parsed and every behaviour with at most 3 (quick) / 5 (thorough) non-default choices over 3 requests, and at most 5 / 7 for single requests, plus one behaviour through every remaining edge of the graph (full edge coverage), is regenerated as a path, compiled to one VCL program (one arm per request id and restart epoch) plus a request history, run on a fresh real interpreter through ServeHTTP with a stub backend and compared step by step: executed lifecycle subroutines, restarts, reported error, X-Cache, cached flag; plus all 216 histories of 3 requests over rate-counter increments and penalty-box additions on two keys, compared with a map model; plus all histories of up to 3 (thorough: 4) requests over 12 request kinds whose restarted attempt may look up another URL (rewrite in vcl_recv when req.restarts == 1, restart from vcl_hit), compared with a map model of the cache (subroutines run, restarts, cached flag, X-Cache). non-trivial = behaviour with a non-default choice or more than one request",
 		Gen:  gen06,
 		Key: func(c Case) string {
 			var b strings.Builder
 			b.WriteString(strings.Join(c.History, ";"))
+			if len(c.Rewrite) > 0 {
+				b.WriteString("rewrite:" + strings.Join(c.Rewrite, ";"))
+			}
 			for _, s := range c.Steps {
 				fmt.Fprintf(&b, "%s:%s:%d:%d|", s.Scope, s.Action, s.Req, s.Epoch)
 			}
